@@ -11,3 +11,18 @@ package gostatsd
 //@   trusted
 //@   modifies everything
 //@   preserves lexer.Lexer, pool.MetricPool, statsd.DatagramParser
+
+// ---- metric maps ----------------------------------------------------------------------------------
+// Well-formed nested maps: every outer key holds a non-nil inner map.
+//@ pred wfCounters(c Counters) := forall k string :: k in c ==> c[k] != nil
+//@ pred wfTimers(t Timers) := forall k string :: k in t ==> t[k] != nil
+//@ pred wfGauges(g Gauges) := forall k string :: k in g ==> g[k] != nil
+//@ pred wfSets(s Sets) := forall k string :: k in s ==> s[k] != nil
+//@ pred wfMM(mm *MetricMap) := mm != nil && wfCounters(mm.Counters) && wfTimers(mm.Timers) && wfGauges(mm.Gauges) && wfSets(mm.Sets)
+
+// ---- percentiles -------------------------------------------------------------------------------------
+//@ func (*Percentiles).Set
+//@   requires p != nil
+//@   ensures  len(deref(p)) == old(len(deref(p))) + 1
+//@   ensures  base(deref(p)) == old(base(deref(p))) || fresh(base(deref(p)))
+//@   modifies deref(p), deref(p)[*]
